@@ -219,6 +219,60 @@ fn handle(line: &str) -> Option<String> {
             let x = cpx_from_wire(f.get(1)?)?;
             return Some(format!("{}", x));
         }
+        "lt" | "le" | "eq" | "tcmp" => {
+            let x = f64_from_wire(f.get(1)?)?;
+            let y = f64_from_wire(f.get(2)?)?;
+            return Some(match op {
+                "lt" => ((x < y) as i32).to_string(),
+                "le" => ((x <= y) as i32).to_string(),
+                "eq" => ((x == y) as i32).to_string(),
+                _ => match x.total_cmp(&y) {
+                    std::cmp::Ordering::Less => "-1".into(),
+                    std::cmp::Ordering::Equal => "0".into(),
+                    std::cmp::Ordering::Greater => "1".into(),
+                },
+            });
+        }
+        "iadd" | "isub" | "imul" | "idiv" | "irem" | "iremeuclid" | "ipow" | "ishl" | "ishr" => {
+            let x: i64 = f.get(1)?.parse().ok()?;
+            let y: i64 = f.get(2)?.parse().ok()?;
+            let o = |r: Option<i64>| r.map(|v| v.to_string()).unwrap_or("none".into());
+            return Some(match op {
+                "iadd" => o(x.checked_add(y)),
+                "isub" => o(x.checked_sub(y)),
+                "imul" => o(x.checked_mul(y)),
+                "idiv" => o(x.checked_div(y)),
+                "irem" => o(if y == 0 { None } else { Some(x.wrapping_rem(y)) }),
+                "iremeuclid" => o(x.checked_rem_euclid(y)),
+                "ipow" => match u32::try_from(y) {
+                    Ok(e) => o(x.checked_pow(e)),
+                    Err(_) => "skip".into(),
+                },
+                "ishl" => {
+                    if (0..=63).contains(&y) {
+                        o(i64::try_from((x as i128) << y).ok())
+                    } else {
+                        "skip".into()
+                    }
+                }
+                _ => {
+                    if (0..=63).contains(&y) {
+                        (x >> y).to_string()
+                    } else {
+                        "skip".into()
+                    }
+                }
+            });
+        }
+        "ineg" | "iabs" | "isignum" => {
+            let x: i64 = f.get(1)?.parse().ok()?;
+            let o = |r: Option<i64>| r.map(|v| v.to_string()).unwrap_or("none".into());
+            return Some(match op {
+                "ineg" => o(x.checked_neg()),
+                "iabs" => o(x.checked_abs()),
+                _ => x.signum().to_string(),
+            });
+        }
         "is_ws" => {
             let cp = u32::from_str_radix(f.get(1)?, 16).ok()?;
             let c = char::from_u32(cp)?;
